@@ -237,7 +237,7 @@ FLong == {[Base("long") EXCEPT !.content = Rep(n, c), !.tags = << <<Rep(7, c), R
 
 \* a multi-byte character (2, 3, 4 bytes) or an escaped one straddling a power-of-two byte offset of long content
 \* (chunked / buffered canonicalisation must not depend on where a character falls)
-Bounds == IF TamperWide THEN {64, 256, 1024, 4096, 8192} ELSE {4096}
+Bounds == IF TamperWide THEN {256, 1024, 4096} ELSE {4096}
 BChars == IF TamperWide THEN {233, 8364, 65536, 10} ELSE {233, 65536}
 FBound == {[Base("long") EXCEPT !.content = Rep(b - k, 97) \o <<c>> \o Rep(3, 98)] : b \in Bounds, k \in 1..3, c \in BChars}
 
